@@ -201,3 +201,9 @@ Print Assumptions C19_source_eigenvalues_names.
 Theorem C19_source_eigenvalues_reject_zero : forall name, gen_eig_dispatch name 0 = None.
 Proof. exact gen_eig_dispatch_rejects_zero. Qed.
 Print Assumptions C19_source_eigenvalues_reject_zero.
+(* non-vacuity: the dispatch accepts the documented names *)
+Example C19_source_example : exists vals, gen_eig_dispatch "wiener"%string 4 = Some vals /\ List.length vals = 4.
+Proof.
+  destruct (gen_eig_dispatch_names 4) as (_ & _ & _ & _ & _ & H); [repeat constructor|].
+  rewrite H. eexists. split; [reflexivity|]. unfold eig_wiener. rewrite map_length, seq_length. reflexivity.
+Qed.
